@@ -18,12 +18,40 @@ RULE = (
     "two kinds of API operations")
 
 
+def _a(a, **kw):
+    d = {"a": a}
+    d.update(kw)
+    return d
+
+
+DIRECTED = [
+    # a plain roll of a CA with a child and products
+    {"actions": [
+        _a("AddCa", c="B", p="A", res=["p1", "p2", "a1"]), _a("Settle"),
+        _a("AddCa", c="C", p="B", res=["p1"]), _a("Settle"),
+        _a("RoaAdd", c="B", r=["p2", "a1"]), _a("Settle"),
+        _a("RollInit", c="B"), _a("Settle"), _a("RollActivate", c="B"),
+        _a("Settle")]},
+    # the entitlement shrinks, the CA rolls before its current key has been
+    # synchronised: the new key's certificate holds less than the old one's
+    # and the products it does not cover must not move to it
+    {"actions": [
+        _a("AddCa", c="D", p="A", res=["p2", "a1"]), _a("Settle"),
+        _a("RoaAdd", c="D", r=["p2", "a1"]), _a("Settle"),
+        _a("ChildRes", c="D", p="A", res=["a1"]), _a("RollInit", c="D"),
+        _a("Step", task="sync_D_with_parent_A"),
+        _a("RollActivate", c="D"), _a("Step", task="sync_repo_D"),
+        _a("Settle")]},
+]
+
+
 def run(tier, seed):
     return kc.run_property(
         PID, LEVEL, tier, seed, THEMES,
         quick_num=14 if len(THEMES) > 1 else 30, thorough_num=250,
         assumptions=kc.COMMON_ASSUMPTIONS, rule=RULE, needed_events=NEEDED,
-        mc_cfgs=(['MC_Krill_q_roll.cfg'] if tier == "quick" else ['MC_Krill_q_roll.cfg', 'MC_Krill_roll.cfg']))
+        mc_cfgs=(['MC_Krill_q_roll.cfg'] if tier == "quick" else ['MC_Krill_q_roll.cfg', 'MC_Krill_roll.cfg']),
+        directed=DIRECTED)
 
 
 def replay(path, seed):
